@@ -238,6 +238,33 @@ def tp_from_inst(m, instant, rep, tzh, tzm, use24=False):
     return (rep, y, a, b, hh, mi, ss, tzh, tzm)
 
 
+def respell(rng, m, t, keep_rep=0.5):
+    """The same instant written differently: another offset and possibly another representation (and the
+    24:00 spelling when it is a midnight)."""
+    tzh, tzm = gens.offset(rng)
+    if (tzh, tzm) == (t[7], t[8]):
+        tzh, tzm = rng.choice([(0, 0), (1, 0), (-1, 0), (5, 30), (0, -30), (13, 0), (-11, -45)])
+    rep = t[0] if rng.random() < keep_rep else rng.choice("cow")
+    return tp_from_inst(m, inst(m, t), rep, tzh, tzm, use24=rng.random() < 0.3)
+
+
+def tp_sibling(pos, ymin=-9000, ymax=9000, keep_rep=0.5):
+    """An `Op.sibling` that respells the time point at argument position `pos` (same instant, another offset
+    and possibly representation), for ops whose first argument is the mode."""
+    def sibling(self, a, rng):
+        b = list(a)
+        t = respell(rng, a[0], a[pos], keep_rep)
+        if not ymin <= t[1] <= ymax:
+            return []
+        b[pos] = t
+        return [tuple(b)]
+    return sibling
+
+
+OTHER_MODES = {"greg": ["d365", "d366", "d360"], "d360": ["greg", "d365"], "d365": ["greg", "d366"],
+               "d366": ["greg", "d365"]}
+
+
 DELTAS = [0, 1, -1, 59, 60, -60, 61, 3599, 3600, -3600, 3601, 86399, 86400, -86400, 86401,
           604800, 2678400, 31536000, -31536000, 31622400, 12622780800, -12622780800]
 
